@@ -426,10 +426,10 @@ Section Load.
 
   Lemma wf_props (f : pfilter F) : wf_filter f = true ->
     0 <= f_id F f /\ axis_ok (f_ax F f) = true /\ axis_ok (f_ay F f) = true
-    /\ name_ok (f_name F f) = true /\ f_pts F f <> [].
+    /\ name_ok (f_name F f) = true.
   Proof.
     unfold wf_filter. intros H. repeat (apply andb_true_iff in H; destruct H as [H ?]).
-    repeat split; auto; try lia. destruct (f_pts F f); [discriminate|congruence].
+    repeat split; auto; try lia.
   Qed.
 
   Lemma load_body_saved (f : pfilter F) : wf_filter f = true ->
@@ -437,7 +437,7 @@ Section Load.
     = LOk (mkacc (Some (f_ax F f)) (Some (f_ay F f)) (Some (f_name F f)) (f_inv F f)
                  (rows_of 0 (f_pts F f))).
   Proof.
-    intros H. destruct (wf_props f H) as (Hid & Hx & Hy & Hn & Hp).
+    intros H. destruct (wf_props f H) as (Hid & Hx & Hy & Hn).
     unfold name_ok in Hn. apply andb_true_iff in Hn. destruct Hn as [_ Hn].
     unfold body_lines. cbn [app C15.load_body].
     rewrite load_line_x by exact Hx. rewrite load_line_y by exact Hy.
@@ -512,23 +512,21 @@ Section Load.
     load_one (flat_map slines fs) k (ids, c)
     = (LOk f, (ids ++ [f_id F f], Z.max c (f_id F f + 1))).
   Proof.
-    intros Hn Hwf Hnew. destruct (wf_props f Hwf) as (Hid & Hx & Hy & Hnm & Hp).
-    unfold C15.load_one.
+    intros Hn Hwf Hnew. destruct (wf_props f Hwf) as (Hid & Hx & Hy & Hnm).
+    unfold C15.load_one, C15.load_one_gen.
     rewrite (blocks_saved F fmtf fmt8), (map_nth_error _ _ _ Hn).
     rewrite load_body_saved by exact Hwf. cbn [a_x a_y a_name a_inv a_pts].
     rewrite rows_no_dup, rows_sorted, rows_same_lengths. cbn [negb].
     rewrite header_id by exact Hid.
     unfold set_unique_id. rewrite mem_false by exact Hnew.
     rewrite rows_rows2.
-    destruct (rows_of 0 (f_pts F f)) eqn:Er.
-    { exfalso. destruct (f_pts F f); [now apply Hp|discriminate]. }
     cbn [fst snd]. destruct f; reflexivity.
   Qed.
 
   Lemma load_one_end fs r :
     load_one (flat_map slines fs) (List.length fs) r = (LIndexError, r).
   Proof.
-    unfold C15.load_one. rewrite (blocks_saved F fmtf fmt8).
+    unfold C15.load_one, C15.load_one_gen. rewrite (blocks_saved F fmtf fmt8).
     replace (nth_error (map (fun f => (header_line F fmt8 f, body_lines F fmtf fmt8 f)) fs)
                        (List.length fs)) with (@None (str * list str)); [reflexivity|].
     symmetry. apply nth_error_None. now rewrite map_length.
@@ -567,6 +565,92 @@ Section Load.
       + exact Hf.
       + apply Hnew. now left.
   Qed.
+  (* ---- import into a registry that may already hold the identifiers ---- *)
+  Definition RegInv (r : registry) : Prop := forall i, In i (fst r) -> i < snd r.
+  Definition same_but_id (f g : pfilter F) : Prop :=
+    f_ax F g = f_ax F f /\ f_ay F g = f_ay F f /\ f_name F g = f_name F f
+    /\ f_inv F g = f_inv F f /\ f_pts F g = f_pts F f.
+
+  Lemma mem_true_In ids (u : Z) : mem ids u = true -> In u ids.
+  Proof.
+    unfold mem. intros E. apply existsb_exists in E. destruct E as [x [Hin Hx]].
+    replace u with x by lia. exact Hin.
+  Qed.
+
+  Lemma set_uid_spec uid ids c :
+    RegInv (ids, c) ->
+    exists u c', set_unique_id uid (ids, c) = (u, (ids, c'))
+                 /\ ~ In u ids /\ u < c' /\ c <= c' /\ (~ In uid ids -> u = uid).
+  Proof.
+    intros Hinv. unfold set_unique_id. destruct (mem ids uid) eqn:M.
+    - exists (Z.max c (uid + 1)), (Z.max c (Z.max c (uid + 1) + 1)).
+      split; [reflexivity|]. split; [|split; [lia|split; [lia|]]].
+      + intros Hin. specialize (Hinv _ Hin). cbn in Hinv. lia.
+      + intros Hn. exfalso. apply Hn. now apply mem_true_In.
+    - exists uid, (Z.max c (uid + 1)). split; [reflexivity|].
+      split; [|split; [lia|split; [lia|reflexivity]]].
+      intros Hin. assert (X : mem ids uid = true); [|congruence].
+      unfold mem. apply existsb_exists. exists uid. split; [exact Hin|lia].
+  Qed.
+
+  Lemma load_one_renumber fs k (f : pfilter F) ids c :
+    nth_error fs k = Some f -> wf_filter f = true -> RegInv (ids, c) ->
+    exists u c',
+      load_one (flat_map slines fs) k (ids, c)
+      = (LOk (mkpf F u (f_ax F f) (f_ay F f) (f_name F f) (f_inv F f) (f_pts F f)),
+         (ids ++ [u], c'))
+      /\ ~ In u ids /\ RegInv (ids ++ [u], c') /\ (~ In (f_id F f) ids -> u = f_id F f).
+  Proof.
+    intros Hn Hwf Hinv. destruct (wf_props f Hwf) as (Hid & Hx & Hy & Hnm).
+    destruct (set_uid_spec (f_id F f) ids c Hinv) as (u & c' & E & Hnew & Hlt & Hle & Hsame).
+    exists u, c'. split; [|split; [exact Hnew|split; [|exact Hsame]]].
+    - unfold C15.load_one, C15.load_one_gen.
+      rewrite (blocks_saved F fmtf fmt8), (map_nth_error _ _ _ Hn).
+      rewrite load_body_saved by exact Hwf. cbn [a_x a_y a_name a_inv a_pts].
+      rewrite rows_no_dup, rows_sorted, rows_same_lengths. cbn [negb].
+      rewrite header_id by exact Hid. rewrite E. rewrite rows_rows2. reflexivity.
+    - intros i Hi. cbn [fst snd] in *. apply in_app_or in Hi.
+      destruct Hi as [Hi|[<-|[]]]; [|exact Hlt]. specialize (Hinv i Hi). cbn in Hinv. lia.
+  Qed.
+
+  Lemma import_loop_renumber rest : forall done got fuel ids c,
+    Forall (fun f => wf_filter f = true) rest ->
+    RegInv (ids, c) ->
+    (List.length rest < fuel)%nat ->
+    exists rest' r',
+      import_loop fuel (flat_map slines (done ++ rest)) (List.length done) (ids, c) got
+      = (LOk (got ++ rest'), r')
+      /\ Forall2 same_but_id rest rest'
+      /\ NoDup (map (f_id F) rest')
+      /\ (forall g, In g rest' -> ~ In (f_id F g) ids)
+      /\ fst r' = ids ++ map (f_id F) rest'.
+  Proof.
+    induction rest as [|f rest IH]; intros done got fuel ids c Hwf Hinv Hfuel.
+    - destruct fuel as [|fuel]; [inversion Hfuel|]. cbn [C15.import_loop].
+      rewrite app_nil_r, load_one_end. exists [], (ids, c).
+      rewrite app_nil_r. split; [reflexivity|]. split; [constructor|].
+      split; [constructor|]. split; [intros g []|]. cbn. now rewrite app_nil_r.
+    - destruct fuel as [|fuel]; [inversion Hfuel|]. cbn [C15.import_loop].
+      inversion Hwf as [|? ? Hf Hwf']; subst.
+      destruct (load_one_renumber (done ++ f :: rest) (List.length done) f ids c)
+        as (u & c' & E & Hnew & Hinv' & _); [|exact Hf|exact Hinv|].
+      { rewrite nth_error_app2 by lia. now rewrite Nat.sub_diag. }
+      rewrite E.
+      set (f' := mkpf F u (f_ax F f) (f_ay F f) (f_name F f) (f_inv F f) (f_pts F f)).
+      destruct (IH (done ++ [f]) (got ++ [f']) fuel (ids ++ [u]) c' Hwf' Hinv')
+        as (rest' & r' & E' & H2 & Hnd & Hfresh & Hids); [simpl in Hfuel; lia|].
+      rewrite <- app_assoc in E'. cbn [app] in E'.
+      rewrite app_length, Nat.add_1_r in E'.
+      exists (f' :: rest'), r'. rewrite <- app_assoc in E'. cbn [app] in E'.
+      split; [exact E'|]. split; [constructor; [unfold same_but_id, f'; cbn; auto|exact H2]|].
+      split; [|split].
+      + cbn [map]. constructor; [|exact Hnd]. intros Hin.
+        apply in_map_iff in Hin. destruct Hin as [g [Eg Hg]].
+        apply (Hfresh g Hg). rewrite Eg. apply in_or_app. right. now left.
+      + intros g [<-|Hg]; [exact Hnew|]. intros Hin. apply (Hfresh g Hg).
+        apply in_or_app. now left.
+      + rewrite Hids. cbn [map]. now rewrite <- app_assoc.
+  Qed.
 End Load.
 
 (* ---- the round trip --------------------------------------------------------- *)
@@ -594,7 +678,7 @@ Proof.
     unfold point_line. rewrite !no_nl_app, Dn, !Tn by exact Hi. reflexivity. }
   induction Hwf as [|f fs Hf Hwf IH]; [reflexivity|].
   cbn [flat_map]. rewrite forallb_app, IH, andb_true_r.
-  destruct (wf_props F f Hf) as (Hid & Hx & Hy & Hn & _).
+  destruct (wf_props F f Hf) as (Hid & Hx & Hy & Hn).
   destruct (axis_ok_props _ Hx) as (Nx & _). destruct (axis_ok_props _ Hy) as (Ny & _).
   unfold name_ok in Hn. apply andb_true_iff in Hn. destruct Hn as [Nn _].
   unfold save_lines, header_line, body_lines. cbn [forallb app].
@@ -634,6 +718,37 @@ Proof.
   - intros f Hf. cbn [map]. rewrite app_nil_r. now apply Hnew.
   - pose proof (saved_lines_length F fmtf fmt8 fs). lia.
   - exists c'. cbn [app map List.length] in E. rewrite app_nil_r in E. exact E.
+Qed.
+
+(* import_all into ANY consistent registry (e.g. the session that saved the
+   file): every filter comes back with its axes, name, inversion flag and
+   points; the identifiers handed out are distinct and not in use *)
+Theorem roundtrip_renumber :
+  forall (F : Type) (fmtf : F -> str) (parsef : str -> option F)
+         (fmt8 : Z -> str) (parse_int : str -> option Z),
+    (forall v, parsef (fmtf v) = Some v) ->
+    (forall v, token_ok (fmtf v) = true) ->
+    (forall n, 0 <= n -> parse_int (fmt8 n) = Some n) ->
+    (forall n, 0 <= n -> digits_ok (fmt8 n) = true) ->
+    forall (fs : list (pfilter F)) (ids0 : list Z) (c0 : Z),
+      Forall (fun f => wf_filter f = true) fs ->
+      (forall i, In i ids0 -> i < c0) ->
+      exists fs' r',
+        import_all F parsef parse_int (save_all F fmtf fmt8 fs) (ids0, c0) = (LOk fs', r')
+        /\ Forall2 (same_but_id F) fs fs'
+        /\ NoDup (map (f_id F) fs')
+        /\ (forall g, In g fs' -> ~ In (f_id F g) ids0)
+        /\ fst r' = ids0 ++ map (f_id F) fs'.
+Proof.
+  intros F fmtf parsef fmt8 parse_int H1 H2 H3 H4 fs ids0 c0 Hwf Hinv.
+  unfold import_all, save_all, unlines.
+  rewrite lines_unlines by (apply saved_lines_no_nl; assumption).
+  destruct (import_loop_renumber F fmtf parsef fmt8 parse_int H1 H2 H3 H4 fs [] []
+              (S (List.length (flat_map (save_lines F fmtf fmt8) fs))) ids0 c0 Hwf)
+    as (fs' & r' & E & A & B & C & D).
+  - exact Hinv.
+  - pose proof (saved_lines_length F fmtf fmt8 fs). lia.
+  - exists fs', r'. cbn [app List.length] in E. auto.
 Qed.
 
 (* ---- the guard cannot be dropped (finding C15-name-blanks) ------------------ *)
@@ -694,3 +809,10 @@ Proof.
   split; [repeat constructor|split; [|vm_compute; reflexivity]].
   repeat constructor; simpl; intuition discriminate.
 Qed.
+
+(* non-vacuity of roundtrip_renumber: identifier 3 is taken, counter 4 *)
+Example ex_renumber :
+  (forall i, In i [3] -> i < 4)
+  /\ fst (import_all Z parsef_c parse_int_c (save_c [ex_good]) ([3], 4))
+     = LOk [mkpf Z 4 (zs "area_um") (zs "deform") (zs "x = y, 100 %") true ex_tri].
+Proof. split; [intros i [<-|[]]; lia|vm_compute; reflexivity]. Qed.
